@@ -548,12 +548,15 @@ def _rule_sweep_closed(prog, chk, R, gc, markObject, objfields, entry):
         inner = [s]
         guarded = False
         if s.get('k') == 'if' and not s.get('e'):
-            cj = _conj(s['c'])
+            cj = [c_ for c_ in _conj(s['c']) if not (SX.is_node(c_) and c_.get('k') == 'un' and c_['op'] == '!' and SX.is_node(SX.strip(c_['e'])) and SX.strip(c_['e']).get('k') == 'mcall'
+                                                        and SX.short(SX.strip(c_['e']).get('callee', '')) == 'empty' and SX.strip(SX.strip(c_['e']).get('obj')).get('id') == K['id'])]
             if len(cj) == 1 and SX.is_node(cj[0]) and cj[0].get('k') == 'un' and cj[0]['op'] == '!' and \
                     any(x.get('k') == 'member' and x.get('name') == stop for x in SX.walk(cj[0]['e'])) and \
                     not any(x.get('k') == 'ref' and not x.get('global') for x in SX.walk(cj[0]['e'])):
                 inner = body_list(s)
                 guarded = True
+            elif not cj:
+                inner = body_list(s)      # only "there is something to close over": as good as unconditional
             else:
                 if any(x.get('k') == 'while' for x in SX.walk(s, into_lambdas=False)) and any(x.get('k') == 'ref' and x.get('id') == K['id'] for x in SX.walk(s)):
                     detail = 'the closure is skipped under `%s`, which is not "the run is over"' % SX.show(s['c'])[:50]
@@ -606,6 +609,7 @@ def _rule_sweep_closed(prog, chk, R, gc, markObject, objfields, entry):
                 continue
             fix = (i, guarded, lam)
     ok_fix = fix is not None and (seed is None or fix[0] > seed) and (mark is None or fix[0] < mark)
+    chk.extra['sweep_closure'] = {'found': fix is not None, 'skipped_when_run_is_over': bool(fix and fix[1]), 'kept_set': K['name'], 'line': K.get('ln')}
     chk.ob('R11.5', gc, K.get('ln', gc.ln), ok_fix,
            why + ': %s is closed under "refers to a member" by a fixpoint over all candidates between seeding and marking, skipped only when the run is over (%s)' % (
                K['name'], detail if fix is None else 'order'), key='sweep-closed:fixpoint')
